@@ -119,6 +119,32 @@ def closure(pid):
     return out
 
 
+def degraded_units(results, pids):
+    """Where a function was restructured so that its sidecar contract no longer applies (the unit is 'undecided': extraction refused, the
+    code uses its stubs in a way the contract does not describe), a bounded check of that function may stand in (brief: 'labelled bounded
+    and never counted as proved').  A unit is degraded - instead of making the whole property undecided - iff a bounded stand-in that
+    exercises the same functions (or, for the whole-system probes, the same property) ran and passed every one of its checks.
+    Solver 'unknown's, vacuity guards, crashes and missing obligations of units that did run are never degraded."""
+    out = {}
+    ok_bounded = [r for r in results if U.UNITS[r.name].kind == "bounded" and r.status == "ok" and r.obligations
+                  and all(o["verdict"] == "discharged" for o in r.obligations)
+                  and not any("skipped" in o["name"] for o in r.obligations)]
+    for r in results:
+        if r.status != "undecided" or U.UNITS[r.name].kind == "bounded" or "vacuity guard" in (r.message or ""):
+            continue
+        u = U.UNITS[r.name]
+        uf = set(map(tuple, u.functions))
+        cover = []
+        for b in ok_bounded:
+            bu = U.UNITS[b.name]
+            bf = set(map(tuple, bu.functions))
+            if (bf and uf and bf & uf) or (not bf and b.name.startswith("system.probe[") and set(bu.props) & set(u.props) & set(pids)):
+                cover.append(b.name)
+        if cover:
+            out[r.name] = cover
+    return out
+
+
 def property_meta(pid):
     return PROPERTY_META.get(pid, {})
 
@@ -163,10 +189,14 @@ def check_property(pid, tier="quick", seed=0, update_expected=False, jobs=None, 
     status = 0
     msgs = []
     obs = []
+    degraded = degraded_units(results, pids)
     for r in results:
         if r.status == "crash":
             status = max(status, 3)
             msgs.append(f"CRASH unit={r.name}: {r.message}")
+        elif r.status == "undecided" and r.name in degraded:
+            msgs.append(f"DEGRADED unit={r.name}: its contract does not apply to the code as it is now ({r.message[:160]}); the functions it covers are decided by the "
+                        f"bounded stand-in(s) {', '.join(degraded[r.name])} only - bounded, not proved")
         elif r.status == "undecided":
             status = max(status, 2)
             msgs.append(f"UNDECIDED unit={r.name}: {r.message}")
@@ -181,7 +211,7 @@ def check_property(pid, tier="quick", seed=0, update_expected=False, jobs=None, 
         with open(os.path.join(VERIF, "expected_obligations.json"), "w") as f:
             json.dump(expected_all, f, indent=1, sort_keys=True)
         expected = names
-    missing = sorted(expected - names)
+    missing = sorted(n for n in expected - names if n.split("/", 1)[0] not in degraded)
     if missing and status < 2 and not only_units:
         status = 2
         msgs.append(f"UNDECIDED property={pid}: expected obligations no longer generated: {missing[:8]}")
@@ -237,7 +267,7 @@ def check_property(pid, tier="quick", seed=0, update_expected=False, jobs=None, 
         status = 1 if status < 3 else status
 
     wall = time.time() - t0
-    write_evidence(pid, tier, seed, results, obs, violations, known_hits, unknowns, msgs, wall)
+    write_evidence(pid, tier, seed, results, obs, violations, known_hits, unknowns, msgs, wall, degraded)
     for m in msgs:
         print(m)
     for line in vio_lines:
@@ -250,7 +280,7 @@ def check_property(pid, tier="quick", seed=0, update_expected=False, jobs=None, 
     return status
 
 
-def write_evidence(pid, tier, seed, results, obs, violations, known_hits, unknowns, msgs, wall):
+def write_evidence(pid, tier, seed, results, obs, violations, known_hits, unknowns, msgs, wall, degraded=None):
     meta = property_meta(pid)
     os.makedirs(EVID, exist_ok=True)
     exdir = os.path.join(EVID, "extracted")
@@ -335,6 +365,7 @@ def write_evidence(pid, tier, seed, results, obs, violations, known_hits, unknow
         "known_findings_matched": [f["text"] for f, _ in known_hits],
         "obligations_refuted_by_known_findings": [{"name": o["name"], "path": o["path"]} for o in kf_obs],
         "undecided": [m for m in msgs],
+        "degraded_to_bounded": [{"unit": k, "decided_only_by_bounded_standins": v} for k, v in (degraded or {}).items()],
         "refuted": [{"name": o["name"], "path": o["path"]} for o in violations],
         "repo_src": REPO_SRC,
         "explanation": meta.get("explanation", ""),
